@@ -298,7 +298,10 @@ class AudioIO(object):
     Updates internal status about open recording streams. Should be called
     only by the internal closing mechanism of children RecStream instances.
     """
-    self._recordings.remove(recst)
+    # By identity: RecStream inherits the elementwise Stream.__eq__, so that
+    # list.remove (which compares with "==") raises TypeError whenever recst
+    # isn't the first item
+    self._recordings = [r for r in self._recordings if r is not recst]
 
   def record(self, chunk_size = None,
                    dfmt = "f",
